@@ -8,6 +8,7 @@ import (
 	"math/rand"
 	"sort"
 	"strings"
+	"time"
 
 	"github.com/goghcrow/go-co/seq"
 )
@@ -479,6 +480,105 @@ func MapNaNCases() [][3]string {
 		out = append(out, [3]string{"interface keys with NaN", canon(c), canon(b)})
 	}
 	return out
+}
+
+// MapInsertCases: entries inserted during the iteration may or may not be visited (Go spec), but every entry
+// that was there from the start and is never deleted is visited exactly once, and nothing twice. The outcome
+// depends on the runtime's random start, so each shape is repeated; [name, iterator, native].
+func MapInsertCases() [][3]string {
+	var out [][3]string
+	verdict := func(n int, visited []int) string {
+		seen := map[int]int{}
+		for _, k := range visited {
+			seen[k]++
+		}
+		for k, c := range seen {
+			if c > 1 {
+				return fmt.Sprintf("DUPLICATE %d", k)
+			}
+		}
+		for k := 0; k < n; k++ {
+			if seen[k] != 1 {
+				return fmt.Sprintf("LOST original key %d (visited %v)", k, visited)
+			}
+		}
+		return "all originals once"
+	}
+	for _, sh := range [][2]int{{1, 1}, {4, 1}, {4, 3}, {6, 4}, {8, 40}, {3, 8}} {
+		n, ins := sh[0], sh[1]
+		impl, native := "all originals once", "all originals once"
+		for rep := 0; rep < 60; rep++ {
+			mk := func() map[int]string {
+				m := map[int]string{}
+				for i := 0; i < n; i++ {
+					m[i] = "v"
+				}
+				return m
+			}
+			{
+				m := mk()
+				var vis []int
+				it := seq.NewMapIter(m)
+				first := true
+				for it.MoveNext() {
+					vis = append(vis, it.Current().Key)
+					if first {
+						first = false
+						for j := 0; j < ins; j++ {
+							m[100+j] = "new"
+						}
+					}
+				}
+				if v := verdict(n, vis); v != "all originals once" {
+					impl = v
+				}
+			}
+			{
+				m := mk()
+				var vis []int
+				first := true
+				for k := range m {
+					vis = append(vis, k)
+					if first {
+						first = false
+						for j := 0; j < ins; j++ {
+							m[100+j] = "new"
+						}
+					}
+				}
+				if v := verdict(n, vis); v != "all originals once" {
+					native = v
+				}
+			}
+		}
+		out = append(out, [3]string{fmt.Sprintf("insert %d keys into a map of %d in the first iteration (60 runs)", ins, n), impl, native})
+	}
+	return out
+}
+
+// ChanNilCases: a range over a nil channel blocks forever (it is not an empty range); [name, iterator, native]
+func ChanNilCases() [][3]string {
+	blocked := func(f func()) string {
+		done := make(chan struct{})
+		go func() { f(); close(done) }()
+		select {
+		case <-done:
+			return "returned"
+		case <-time.After(150 * time.Millisecond):
+			return "blocked"
+		}
+	}
+	var ch chan int
+	impl := blocked(func() {
+		it := seq.NewChanIter[int](ch)
+		for it.MoveNext() {
+		}
+	})
+	native := blocked(func() {
+		for range ch {
+		}
+	})
+	return [][3]string{{"nil channel", impl, native}}
 }
 
 // nil map
